@@ -150,6 +150,7 @@ class Source:
         self.enums = dict(STD_ENUMS)          # name -> [variant names]
         self.enum_fields = {}                   # (enum, variant) -> [field names] | int arity
         self.structs = {}                       # name -> [field names]
+        self.struct_generics = {}               # name -> [type parameter names]
         self.struct_types = {}                  # name -> [(field name | index, type text)]
         self.variant_types = {}                 # (enum, variant) -> [(field name | index, type text)]
         self.fn_generics = {}                   # (file, fn name, line) -> [generic names]
@@ -210,6 +211,10 @@ class Source:
                     self.enum_fields[(m.group(1), mm.group(1))] = 0
                     self.variant_types[(m.group(1), mm.group(1))] = []
             self.enums[m.group(1)] = vs
+        for m in re.finditer(r'\bstruct (\w+)\s*(<[^>{(;]*>)?', clean):
+            if m.group(2):
+                gs = [re.match(r'\w+', g.strip()).group(0) for g in split_top(m.group(2)[1:-1]) if g.strip() and not g.strip().startswith("'")]
+                self.struct_generics[m.group(1)] = gs
         for m in re.finditer(r'\bstruct (\w+)\s*(?:<[^>{(;]*>)?\s*(\{|\(|;)', clean):
             if m.group(2) == '{':
                 e = self._block_end(clean, m.end() - 1); body = re.sub(r'//[^\n]*', '', clean[m.end():e - 1])
@@ -404,6 +409,7 @@ class Mir:
             segs = [s for s in rest.split('::') if s]
             f.method = segs[0] if segs else ''
             if not f.is_closure and len(segs) == 1 and impl.self_ty:
+                if impl.self_ty in self.src.aliases: impl.self_ty = self.src.aliases[impl.self_ty]     # `impl Alias { .. }`
                 head = type_head(impl.self_ty)[0]
                 self.by_impl.setdefault((impl.trait, head, f.method), []).append(f)
         if not f.is_closure and not im:
